@@ -88,3 +88,91 @@ pub fn gen_churn(prop: &str, seed: u64) -> RunDesc {
     }
     RunDesc { prop: prop.to_string(), family: "ebr-churn".into(), seed, cfg, threads, params: J::Null, schedule: None, buggify_script: None }
 }
+
+/// EBR-LONGCS: a victim thread keeps an outer critical section open for a long time and does
+/// things inside it that must not end it (reactivating an *inner* guard, nested pins, flushes,
+/// defers, internal pins of Rc operations, try_advance/collect), while peers defer and drive the
+/// epoch clock. Some runs start at epoch 0, 1 or 2.
+pub fn gen_longcs(prop: &str, seed: u64) -> RunDesc {
+    let mut rng = Rng::new(seed);
+    let mut cfg = RunCfg::default();
+    let nvictims = 1 + rng.below(2) as usize;
+    let npeers = 1 + rng.below(2) as usize;
+    swarm_cfg(&mut rng, &mut cfg, nvictims + npeers, true);
+    cfg.max_objects = *rng.pick(&[2u32, 3, 4, 8]);
+    cfg.manual_interval = *rng.pick(&[1u32, 2, 3, 5, 8]);
+    if rng.chance(0.35) {
+        cfg.start_epoch = rng.below(3);
+    }
+    cfg.roots = 1;
+    cfg.wroots = 1;
+    let shape = |rng: &mut Rng| rng.below(crate::closures::NSHAPES as u64) as u32;
+    let mut threads = Vec::new();
+    for v in 0..nvictims {
+        let mut ops = vec![op(K::Pin, 0, 0, 0, 0)];
+        let nested = rng.chance(0.7);
+        if nested {
+            ops.push(op(K::Pin, 1, 0, 0, 0));
+        }
+        ops.push(op(K::Signal, 1 + v as u32, 0, 0, 0));
+        let n = 3 + rng.below(10);
+        for _ in 0..n {
+            match rng.below(12) {
+                0..=3 if nested => ops.push(op(K::Reactivate, 1, 0, 0, 0)),
+                4 | 5 if nested => ops.push(op(K::ReactAfter, 1, rng.below(4) as u32, 0, 0)),
+                6 => ops.push(op(K::Flush, 0, 0, 0, 0)),
+                7 => ops.push(op(K::Defer, 0, shape(&mut rng), 0, 0)),
+                8 => {
+                    ops.push(op(K::New, 0, NONE_SLOT, 0, 0));
+                    ops.push(op(K::DropRc, 0, 0, 0, 0));
+                }
+                9 => ops.push(op(K::TryAdvance, 0, 0, 0, 0)),
+                10 => ops.push(op(K::Collect, 0, 0, 0, 0)),
+                _ => {
+                    // a third guard comes and goes
+                    ops.push(op(K::Pin, 2, 0, 0, 0));
+                    if rng.chance(0.5) {
+                        ops.push(op(K::Reactivate, 2, 0, 0, 0));
+                    }
+                    ops.push(op(K::Unpin, 2, 0, 0, 0));
+                }
+            }
+            if rng.chance(0.5) {
+                ops.push(op(K::Await, 10 + rng.below(6) as u32, 0, 0, 0));
+            }
+        }
+        if nested && rng.chance(0.5) {
+            ops.push(op(K::Unpin, 1, 0, 0, 0));
+        }
+        ops.push(op(K::Await, 20, 0, 0, 0));
+        ops.push(op(K::Unpin, 0, 0, 0, 0));
+        let mut t = ThreadProg::new(0, ops);
+        t.name = "victim".into();
+        threads.push(t);
+    }
+    for p in 0..npeers {
+        let mut ops = vec![op(K::Await, 1, 0, 0, 0)];
+        let rounds = 4 + rng.below(10);
+        for r in 0..rounds {
+            ops.push(op(K::Pin, 0, 0, 0, 0));
+            for _ in 0..1 + rng.below(3) {
+                ops.push(op(K::Defer, 0, shape(&mut rng), 0, 0));
+            }
+            ops.push(op(K::Flush, 0, 0, 0, 0));
+            ops.push(op(K::Unpin, 0, 0, 0, 0));
+            if p == 0 && r < 6 {
+                ops.push(op(K::Signal, 10 + r as u32, 0, 0, 0));
+            }
+        }
+        if p == 0 {
+            ops.push(op(K::Signal, 20, 0, 0, 0));
+        }
+        let mut t = ThreadProg::new(0, ops);
+        t.name = "peer".into();
+        threads.push(t);
+    }
+    if let Some(s) = cfg.stall.as_mut() {
+        s.victim = (nvictims + rng.below(npeers as u64) as usize) as u32;
+    }
+    RunDesc { prop: prop.to_string(), family: "ebr-longcs".into(), seed, cfg, threads, params: J::Null, schedule: None, buggify_script: None }
+}
